@@ -132,6 +132,9 @@ def gen(t):
     w('//@include inc/mparser_api.vu')
     w('//@types %s %s' % (f, T))
     w('//@fieldimpls' + ('' if t in NO_LINEAR else ' nf'))
+    if re.search(r'(?<![.A-Za-z0-9_])parse_repeated_field\s*(::\s*<[^()]*>)?\s*\(', body_nc):
+        # the free helper of src/parser/utils.rs is called: it comes with its own contract, proved in this unit
+        w('//@include inc/mparser_utils.vu')
     w('')
     for h in HELPERS.get(t, []):
         w('//@fn %s %s in "impl %s" impl=%s sigrep="crate::errors::ParseError=>ParseError" props=C01,C07' % (f, h, T, T))
